@@ -7,6 +7,7 @@ penalty, early-abandoning bookkeeping and end-point selection; value in internal
 -/
 import Dtaiverif.Proofs.Dist
 import Dtaiverif.Proofs.CostInst
+import Dtaiverif.Props.PyBand
 
 namespace Dtai
 variable {α : Type} [LinearOrderedAddCommMonoidWithTop α]
